@@ -120,12 +120,17 @@ def run(pid, tier, seed, replay=None):
              ("noreflection", seed + 2, 120 if quick else 1500, 5), ("mixed", seed + 3, 200 if quick else 3000, 8),
              ("shapes", seed + 4, 60 if quick else 800, 6)]
     if pid == "C02":
+        # every serializable descriptor (canonical and alias spellings) as a one-property instance, default options
+        plans.append(("descriptors", seed + 8, 0, 6))
         plans.append(("scale", seed + 6, 10 if quick else 200, 6))     # several hundred Items per document
         plans.append(("huge", seed + 7, 4 if quick else 24, 6))        # fingerprinted huge exact-identity forests
     for mode, sd, count, maxi in plans:
         raw = os.path.join(OUT, "%s_xml_%s.ndjson" % (pid, mode))
         tok = raw + ".tok"
         rbxv(["xml-cases", "--seed", sd, "--count", count, "--max-instances", maxi, "--mode", mode], stdout_path=raw)
+        if mode == "descriptors" and quick:
+            lines = open(raw).readlines()
+            open(raw, "w").writelines([l for i, l in enumerate(lines) if (i + seed) % 2 == 0])
         tokenise(raw, tok)
         n, fails = validate_cases("XmlFormatTrace", tok, env)
         total += n
